@@ -111,13 +111,15 @@ theorem foldl_rf_of {α : Type} (f : Ctl → α → Ctl) (hf : ∀ c x, (f c x).
   induction l generalizing c with
   | nil => rfl
   | cons x xs ih => simp only [List.foldl]; rw [ih, hf]
+@[simp] theorem readCalls_rf (c : Ctl) (t : List (String × Out)) : (c.readCalls t).rf = c.rf := by
+  unfold readCalls; apply foldl_rf_of; intro c x; split <;> rfl
 theorem stepRead_rf (c : Ctl) (off len : Nat) (t : List (String × Out)) : (c.stepRead off len t).1.rf = c.rf := by
   unfold stepRead; simp only
   repeat' split
-  all_goals (try simp)
-  all_goals (apply foldl_rf_of; intro c x; split <;> rfl)
-theorem stepWrite_rf (c : Ctl) (off len : Nat) (f : List String) : (c.stepWrite off len f).1.rf = c.rf := by
-  unfold stepWrite
+  all_goals simp
+theorem stepWrite_rf (c : Ctl) (off len : Nat) (f : List String) (t : List (String × Out)) :
+    (c.stepWrite off len f t).1.rf = c.rf := by
+  unfold stepWrite; simp only
   repeat' split
   all_goals simp [stepFanOut_rf]
 theorem stepSync_rf (c : Ctl) (m : String) (f : List String) : (c.stepSync m f).1.rf = c.rf := by
@@ -149,7 +151,7 @@ theorem step_rf (c : Ctl) (op : CtlOp) : (c.step op).1.rf = c.rf := by
   | remove a => simp
   | setMode a m => simp only; split <;> simp
   | verify a rwc woc ckp rev o1 o2 ck => simp [stepVerify_rf]
-  | write off len f => simp [stepWrite_rf]
+  | write off len f t => simp [stepWrite_rf]
   | sync f => simp [stepSync_rf]
   | unmap f => simp [stepSync_rf]
   | read off len t => simp [stepRead_rf]
